@@ -271,7 +271,7 @@ var propNotes = map[string]string{
 	"C10": "'writing succeeds without error' depends on text/template and Name.PS rejecting non-regular names (a glyph named << is accepted by the reader and refused by the writer: not claimed); re-read equalities go through text/template and the interpreter and are not expressible. Covered: no panic in any writer function for fonts satisfying fontWF, type1.Read establishes fontWF, coordinates within 1/214 (shared with C20).",
 	"C11": "'never counting past N+1' on the error-handler path and the two-run equality 'same state as with no budget' are not claimed; Go stack depth is not a value a contract can see; size limits of array/string/dict are covered by C01's make obligations only.",
 	"C12": "covered: the clear-text byte layer (refill, readByteRaw, readByte, Next, Peek, Read) over the ghost input tape for every delivery schedule. Not covered: eexec mode, composition with the token layer beyond C04's per-token contracts, split-Execute equivalence, seekable vs non-seekable peek in type1.Read, afm.Read (bufio.Scanner, trusted), pfb (see C14).",
-	"C13": "truncation-never-yields-partial-result (depends on definefont being last in the file) and the reader layers above executeScanner (Execute, type1.Read, ReadCMap, afm.Read) are not under the fault contract; fmt.Fprintf and text/template are trusted to perform their output through w.Write and to return the first write error.",
+	"C13": "truncation-never-yields-partial-result (depends on definefont being last in the file) and the reader layers above executeScanner (Execute, type1.Read, ReadCMap) are not under the fault contract (afm.Read is, through the trusted model of bufio.Scanner); fmt.Fprintf and text/template are trusted to perform their output through w.Write and to return the first write error.",
 	"C14": "the per-iteration step relation over the ghost tape is the specification; it is not folded into one closed formula for the whole output, and the error results (short segment, truncated end marker) are covered by safety and C13 only.",
 	"C16": "table contents (glyph list, AGLFN, Zapf Dingbats, compat expansions) are data; decision order of the lookups, '.'-suffix and '_' splitting (strings package), final scalar-range test of the u form, FromUnicode and the name/rune round trip are not under contract.",
 	"C17": "encodeCharstrings' map loop is not claimed (inner loops in the body; only the own-key frame is proved); text/template's sorted map iteration, sort.Slice / slices.Sort producing a function of the key set, absence of time/rand/address dependence (not scanned) are trusted; bForall over a dictionary is order dependent by PLRM and outside the anchored files.",
